@@ -646,27 +646,52 @@ Definition Pre0 (s : est) : Prop :=
   BI s /\ (forall b, In b (ballots s) -> forall c, top_rank A b = Some c -> In c ids) /\
   (forall eb, In eb (eballots s) -> forall g i, In g (erank eb) -> In i g -> In i ids).
 
+Definition meek_begin (s : est) : est :=
+  match omega A cfg with
+  | Raise e => set_crash s e
+  | Ok _ =>
+    let s1 := set_votes s (of_int A (cf_nballots cfg)) in
+    let s2 := set_quota_r A s1 (meek_quota A cfg s1) in
+    if crashed s2 then s2 else
+    log_action A cfg TBegin "Begin Count" (meek_first_prefs A (init_kfs A s2))
+  end.
+Definition meek_body : cmd est :=
+  Do (new_round A cfg) ;;
+  meek_iterate A cfg ;;
+  Do (fun s => log_action A cfg TIterate ("Iterate (" ++ status_name (lv_status s) ++ ")") s) ;;
+  Ite (fun s => lv_status s =? IS_elected) Continue Skip ;;
+  Ite (fun s => lv_status s =? IS_batch) (Do (meek_defeat_batch A cfg) ;; Continue) Skip ;;
+  Ite (fun s => nonempty' (hopefuls A s)) (Do (meek_defeat_low A cfg (tie_fmt "defeat") true)) Skip.
+Lemma meek_unfold : meek A cfg =
+  (Do meek_begin ;; While (fun s => negb (count_complete_m A cfg s)) meek_body ;; Do (meek_final A cfg true)).
+Proof. reflexivity. Qed.
+
+Lemma mi_begin (s : est) : Pre0 s -> crashed (meek_begin s) = false -> MI (meek_begin s).
+Proof.
+  intros (B & Hb & He). unfold meek_begin. destruct (omega A cfg) as [o|e]; [|intros _; apply mi_set_crash; exact (proj1 B)]. cbv zeta.
+  set (s2 := set_quota_r A (set_votes s _) _).
+  assert (B2: BI s2 /\ ballots s2 = ballots s /\ eballots s2 = eballots s).
+  { unfold s2, set_quota_r. destruct (meek_quota A cfg _); (split; [revert B; apply bi_same; reflexivity|split; reflexivity]). }
+  destruct B2 as (B2 & E2 & E3).
+  destruct (crashed s2) eqn:C2; [congruence|]. intros _.
+  apply mi_log; [discriminate|]. unfold meek_first_prefs.
+  match goal with |- MI ?x => refine (proj1 (_ : BI x)) end.
+  match goal with |- BI (fold_left _ (eballots ?s1) _) => assert (Ee: eballots s1 = eballots s) end.
+  { rewrite proj_fold; [exact E3|]. intros t b. destruct (top_rank A b); reflexivity. }
+  rewrite Ee. apply bi_fold.
+  - intros t eb Heb Bt. destruct (crashed t); [exact Bt|]. destruct (erank eb) as [|top rest] eqn:Er; [apply bi_set_crash; exact Bt|].
+    destruct (floordivv A _ _); [|apply bi_set_crash; exact Bt]. cbv zeta. apply bi_fold; [|exact Bt].
+    intros u i Hi Bu. apply bi_add_vote; [|exact Bu]. apply (He eb Heb top i); [rewrite Er; left; reflexivity|exact Hi].
+  - apply bi_fold; [|apply bi_init_kfs; exact B2].
+    intros t b Hb' Bt. destruct (top_rank A b) as [c|] eqn:Et; [|exact Bt]. apply bi_add_vote; [|exact Bt].
+    apply (Hb b); [|exact Et]. cbn [ballots init_kfs set_cands] in Hb'. rewrite E2 in Hb'. exact Hb'.
+Qed.
+
 Theorem meek_triple (Qb Qc : est -> Prop) : T3 Pre0 (meek A cfg) MI Qb Qc.
 Proof.
-  unfold meek.
+  rewrite meek_unfold.
   eapply t_seq with (M := MI).
-  { apply t_do_nc. intros s (B & Hb & He). destruct (omega A cfg) as [o|e]; [|intros _; apply mi_set_crash; exact (proj1 B)]. cbv zeta.
-    set (s2 := set_quota_r A (set_votes s _) _).
-    assert (B2: BI s2 /\ ballots s2 = ballots s /\ eballots s2 = eballots s).
-    { unfold s2, set_quota_r. destruct (meek_quota A cfg _); (split; [revert B; apply bi_same; reflexivity|split; reflexivity]). }
-    destruct B2 as (B2 & E2 & E3).
-    destruct (crashed s2) eqn:C2; [congruence|]. intros _.
-    apply mi_log; [discriminate|]. unfold meek_first_prefs.
-    match goal with |- MI ?x => refine (proj1 (_ : BI x)) end.
-    match goal with |- BI (fold_left _ (eballots ?s1) _) => assert (Ee: eballots s1 = eballots s) end.
-    { rewrite proj_fold; [exact E3|]. intros t b. destruct (top_rank A b); reflexivity. }
-    rewrite Ee. apply bi_fold.
-    - intros t eb Heb Bt. destruct (crashed t); [exact Bt|]. destruct (erank eb) as [|top rest] eqn:Er; [apply bi_set_crash; exact Bt|].
-      destruct (floordivv A _ _); [|apply bi_set_crash; exact Bt]. cbv zeta. apply bi_fold; [|exact Bt].
-      intros u i Hi Bu. apply bi_add_vote; [|exact Bu]. apply (He eb Heb top i); [rewrite Er; left; reflexivity|exact Hi].
-    - apply bi_fold; [|apply bi_init_kfs; exact B2].
-      intros t b Hb' Bt. destruct (top_rank A b) as [c|] eqn:Et; [|exact Bt]. apply bi_add_vote; [|exact Bt].
-      apply (Hb b); [|exact Et]. cbn [ballots init_kfs set_cands] in Hb'. rewrite E2 in Hb'. exact Hb'. }
+  { apply t_do_nc. intros s P Hc. apply mi_begin; assumption. }
   eapply t_seq with (M := MI).
   { eapply t_post; [|apply (t_while est (@crashed A) MI (fun _ => False))].
     - intros s [H|[H _]]; [contradiction|exact H].
